@@ -1146,6 +1146,14 @@ func (e *Entry) Augment(addErrors bool) (processed, skipped int) {
 	var unapplied []*Entry
 	for _, a := range e.Augments {
 		target := a.findSchemaNode(a.Name)
+		// A relative path may lead to a node of the augment itself, which
+		// is in no tree: that is no target.
+		for p := target; p != nil; p = p.Parent {
+			if p == a {
+				target = nil
+				break
+			}
+		}
 		if target == nil {
 			if addErrors {
 				e.errorf("%s: augment %s not found", Source(a.Node), a.Name)
